@@ -65,6 +65,19 @@ def evaluate(case):
                 if dd:
                     return VIOL(dict(sgn, kind='rate', factor=c, fs=125 * c), 'fs = %g Hz (non-integer) with the band scaled alike changes '
                                 'the table: %s' % (125 * c, dd), evals=nev)
+        if o['fs'] == 64 and o['f_range'] == (6, 14):
+            # a band that is NARROW in absolute terms: the same samples declared as 16 Hz with band 1.75-2.25 Hz (0.5 Hz wide),
+            # then as 32 Hz / 3.5-4.5 Hz and 64 Hz / 7-9 Hz
+            on = dict(o, fs=16, f_range=(1.75, 2.25))
+            if precondition(sig, on)[0]:
+                bn = compute_features(np.array(sig), 16, (1.75, 2.25), **kw)
+                for c in (2, 4):
+                    d = compute_features(np.array(sig), 16 * c, (1.75 * c, 2.25 * c), **kw)
+                    nev += 1
+                    dd = diff_tables(d, bn, exact=True)
+                    if dd:
+                        return VIOL(dict(sgn, kind='rate', factor=c, narrow_band=True), 'narrow band (0.5 Hz wide at fs = 16 Hz): multiplying fs '
+                                    'and f_range by %g changes the table: %s' % (c, dd), evals=nev)
         again = compute_features(np.array(sig), o['fs'], o['f_range'], **kw)
         nev += 1
         dd = diff_tables(again, base, exact=True)
